@@ -23,6 +23,8 @@
 (*   en  <<"T"|"F"|"eq"|"ne", variable, constant>>   the enabled field      *)
 (*   ds, vs  defaults / vars of the role: <<name, "lit"|"ref", value>>      *)
 (*   ps  poison: the name also contains "{{ nosuch }}" (fails at stage 4)   *)
+(*   pu  "" | "name"|"var"|"cons"|"bind"|"conn"|"load": that field has an    *)
+(*       unterminated "{{" (the template cannot even be parsed)             *)
 (*   x   "none" | "hook" | "cons" | "chan"  traits/constraint/channel extra  *)
 (*   sub sub-workflow id of an include                                     *)
 (*   for <<>> or <<[t |-> "list"|"var"|"dep"|"be", s, b, e, bv, ev, x, var]>>:*)
@@ -76,7 +78,7 @@ CardsVar(v) == "cards_" \o v
 (* Sub-workflow catalogue (include targets); the driver renders the same.   *)
 Nd(par, k, nm, np, en, vs, ds, ps, x, sub, for) ==
   [par |-> par, k |-> k, nm |-> nm, np |-> np, en |-> en, vs |-> vs, ds |-> ds,
-   ps |-> ps, x |-> x, sub |-> sub, for |-> for]
+   ps |-> ps, pu |-> "", x |-> x, sub |-> sub, for |-> for]
 ENT == <<"T", "", "">>
 ENF == <<"F", "", "">>
 SubIds == {"s1", "s2", "s3", "s4", "s5", "s6", "s7", "s8"}
@@ -148,7 +150,15 @@ Traits(n) == IF n.k \in {"task", "call"}
                                     ELSE <<"", "", "0s", TRUE>>
                ELSE <<>>
 ConsVals(n, stack) == IF n.x = "cons" THEN <<"c" \o Params(n.np, stack)>> ELSE <<>>
-ConnTargets(n, ppath) == IF n.x = "chan" THEN <<ppath \o ".peer:in">> ELSE <<>>
+\* channel declarations (stage 5, rolebase.go wrapBindAndConnectFields): connect targets and the `global` aliases of
+\* bind declarations are templates; in (a role nested in) an iterator's template role they depend on the iteration
+\* variable - every generated role has its own.  pp = <<path, name>> of the parent role.
+ConnTargets(n, stack, pp) == CASE n.x = "chan" -> <<pp[1] \o ".peer:in">>                  \* {{ Parent().Path }}.peer:in
+                               [] n.x = "conn" -> <<"peer" \o Params(n.np, stack) \o ":in">>  \* peer-{{ it }}:in
+                               [] OTHER -> <<>>
+BindGlobals(n, stack, pp) == CASE n.x = "bind" -> <<"g" \o Params(n.np, stack)>>          \* g-{{ it }}
+                               [] n.x = "bindp" -> <<"data-" \o pp[2]>>                      \* data-{{ Parent().Name }}
+                               [] OTHER -> <<>>
 
 Kids(T, i) == SelectSeq([j \in 1..Len(T) |-> j], LAMBDA j : T[j].par = i)
 
@@ -185,16 +195,21 @@ RangeOf(f, vstack) ==
 RECURSIVE ProcOne(_, _, _, _, _, _, _, _), ProcVals(_, _, _, _, _, _, _), ProcKids(_, _, _, _, _, _)
 
 (* One role instance: node i of template T (tid names T: "" = the root     *)
-(* template), parent environment env = [d, v, u], locals L, parent path;   *)
+(* template), parent environment env = [d, v, u], locals L, pp = <<path,   *)
+(* name>> of the parent role;                                              *)
 (* inc = <<name>> when T[i] is the root of a sub-workflow processed on      *)
 (* behalf of an include role of that (already resolved) name                *)
 (* (includerole.go: r.aggregatorRole = *subWfRoot; r.Name = name).          *)
-ProcOne(tid, T, i, env, L, ppath, inc, dev) ==
+ProcOne(tid, T, i, env, L, pp, inc, dev) ==
   LET n  == T[i]
+      ppath == pp[1]
       s0 == L @@ env.u @@ env.v @@ env.d
   IN
   IF ~EnOk(n.en, s0) THEN (IF dev.enerr THEN OkR(<<>>) ELSE ErrR)   \* see EnabledErrorMasked
   ELSE IF ~EnVal(n.en, s0) THEN OkR(<<>>)           \* disabled: stages 1..5 are skipped
+  \* pu: some templated field of the role that is processed after stage 0 (name, a var, a constraint value, a bind
+  \* alias, a connect target, the task class) has an UNTERMINATED "{{": fasttemplate.NewTemplate fails, the load fails
+  ELSE IF n.pu # "" THEN ErrR
   ELSE IF ~ValsOk(n.ds, s0) THEN ErrR
   ELSE
   LET D  == MapOf(n.ds, s0)
@@ -214,24 +229,24 @@ ProcOne(tid, T, i, env, L, ppath, inc, dev) ==
       fin  == cenv.u @@ cenv.v @@ cenv.d
       base == [src |-> <<tid, i>>, k |-> IF inc = <<>> THEN n.k ELSE "inc", n |-> nm, p |-> path,
                st |-> StackPairs(fin), tr |-> Traits(n),
-               cv |-> ConsVals(n, s4), cn |-> ConnTargets(n, ppath), ch |-> <<>>]
+               cv |-> ConsVals(n, s4), cn |-> ConnTargets(n, s4, pp), bd |-> BindGlobals(n, s4, pp), ch |-> <<>>]
   IN
   CASE n.k \in {"task", "call"} -> OkR(<<base>>)
     [] n.k = "agg" ->
-         LET r == ProcKids(tid, T, Kids(T, i), cenv, path, dev)
+         LET r == ProcKids(tid, T, Kids(T, i), cenv, <<path, nm>>, dev)
          IN IF r.err THEN ErrR
             ELSE IF r.cnt = 0 THEN OkR(<<>>)          \* left empty: disappears
             ELSE OkR(<<[base EXCEPT !.ch = r.out]>>)
     [] n.k = "inc" ->
          IF n.sub \notin SubIds THEN ErrR               \* the sub-workflow cannot be loaded
-         ELSE ProcOne(n.sub, Subs[n.sub], 1, cenv, EmptyMap, ppath, <<nm>>, dev)
+         ELSE ProcOne(n.sub, Subs[n.sub], 1, cenv, EmptyMap, pp, <<nm>>, dev)
     [] OTHER -> ErrR
 
 \* iterator: one instance of the template role per element of the range, in order
-ProcVals(tid, T, i, env, ppath, vals, dev) ==
+ProcVals(tid, T, i, env, pp, vals, dev) ==
   IF vals = <<>> THEN OkR(<<>>)
-  ELSE LET r    == ProcOne(tid, T, i, env, (T[i].for[1].var :> Head(vals)), ppath, <<>>, dev)
-           rest == ProcVals(tid, T, i, env, ppath, Tail(vals), dev)
+  ELSE LET r    == ProcOne(tid, T, i, env, (T[i].for[1].var :> Head(vals)), pp, <<>>, dev)
+           rest == ProcVals(tid, T, i, env, pp, Tail(vals), dev)
        IN IF r.err \/ rest.err THEN ErrR ELSE OkR(r.out \o rest.out)
 
 (* children of an aggregator, in order; cnt = what the aggregator counts    *)
@@ -245,16 +260,16 @@ ProcVals(tid, T, i, env, ppath, vals, dev) ==
 (* yielded even when the expression is true, and an iterator with a literal *)
 (* (or default) true counts as a child of its parent even when it yielded   *)
 (* nothing, so the parent is not recognised as empty.                       *)
-ProcKids(tid, T, ks, env, ppath, dev) ==
+ProcKids(tid, T, ks, env, pp, dev) ==
   IF ks = <<>> THEN [err |-> FALSE, out |-> <<>>, cnt |-> 0]
   ELSE
   LET j     == Head(ks)
       isFor == T[j].for # <<>>
       vst   == env.u @@ env.v @@ env.d
-      r     == IF ~isFor THEN ProcOne(tid, T, j, env, EmptyMap, ppath, <<>>, dev)
+      r     == IF ~isFor THEN ProcOne(tid, T, j, env, EmptyMap, pp, <<>>, dev)
                ELSE IF ~RangeOk(T[j].for[1], vst) THEN ErrR
-               ELSE ProcVals(tid, T, j, env, ppath, RangeOf(T[j].for[1], vst), dev)
-      rest  == ProcKids(tid, T, Tail(ks), env, ppath, dev)
+               ELSE ProcVals(tid, T, j, env, pp, RangeOf(T[j].for[1], vst), dev)
+      rest  == ProcKids(tid, T, Tail(ks), env, pp, dev)
   IN
   IF r.err \/ rest.err THEN ErrR
   ELSE
@@ -266,14 +281,14 @@ ProcKids(tid, T, ks, env, ppath, dev) ==
 
 \* out = <<>> and ~err: the root itself ended up disabled (empty)
 Load(T, uv, dev) ==
-  LET r == ProcOne("", T, 1, [d |-> EmptyMap, v |-> EmptyMap, u |-> PairsMap(uv)], EmptyMap, "", <<>>, dev)
+  LET r == ProcOne("", T, 1, [d |-> EmptyMap, v |-> EmptyMap, u |-> PairsMap(uv)], EmptyMap, <<"", "">>, <<>>, dev)
   IN [err |-> r.err, out |-> r.out]
 
 (* result trees without the `src` bookkeeping: what the real dump is compared with *)
 RECURSIVE Strip(_)
 Strip(s) == [i \in 1..Len(s) |->
               [k |-> s[i].k, n |-> s[i].n, p |-> s[i].p, st |-> s[i].st, tr |-> s[i].tr,
-               cv |-> s[i].cv, cn |-> s[i].cn, ch |-> Strip(s[i].ch)]]
+               cv |-> s[i].cv, cn |-> s[i].cn, bd |-> s[i].bd, ch |-> Strip(s[i].ch)]]
 
 (* all nodes of a result forest, preorder *)
 RECURSIVE Flat(_)
